@@ -523,7 +523,7 @@ func c19(tier string) int {
 	run.Set("feeder_cycles", n2)
 	run.Set("evaluations", n1+n2)
 	run.Set("exhaustive", true)
-	run.Set("rule", "endpoint: the complete 1-edit neighbourhood (every prefix, deletion, bit flip, 14 insert tokens at every position) of a valid request of 11 verdict classes, all token strings up to 4 (quick) / 5 (thorough) tokens over 13 tokens, and size-boundary bodies (16383/16384/16385 bytes, 5000-byte proof line, 3000 proof lines, a proof line longer than the reader's buffer), each sent to the real handler behind the 16 KiB cap in front of the real witness in two states, and through parseBody and Proof.Unmarshal: no panic, exactly one response, status in {200,400,403,404,409,422,429,500}. Feeders (sumdb, tiles, pixel, rekor, serverless) and distributor: one cycle in a worker subprocess for every placement of up to 1 (quick) / 2 (thorough) deviating answers from a 13-item menu (empty, truncated, oversized, non-UTF-8, wrong content, type-confused JSON, 404, 500, reset...) at every request position, and for log-signed checkpoints with size in {0,1,2^62-1,2^62,2^62+1,2^63-1,2^63,2^64-1} x root hash length {0,5,31,32,33} x witness {empty, size 1}: must end with a result or an error (no panic, no process exit, no stall: 20 s without progress, confirmed 3 times). distinct_nontrivial = distinct feeder cases")
+	run.Set("rule", "endpoint: the complete 1-edit neighbourhood (every prefix, deletion, bit flip, 14 insert tokens at every position) of a valid request of 11 verdict classes, all token strings up to 4 (quick) / 5 (thorough) tokens over 13 tokens, and size-boundary bodies (16383/16384/16385 bytes, 5000-byte proof line, 3000 proof lines, a proof line longer than the reader's buffer), each sent to the real handler behind the 16 KiB cap in front of the real witness in two states, and through parseBody and Proof.Unmarshal: no panic, exactly one response, status in {200,400,403,404,409,422,429,500}. Feeders (sumdb, tiles, pixel, rekor, serverless) and distributor: one cycle in a worker subprocess for every placement of up to 1 (quick) / 2 (thorough) deviating answers from a 27-item menu (empty, truncated at several places, oversized, non-UTF-8, wrong content, seven type-confused / degenerate JSON shapes, one byte, 31 bytes, serverless tile header only / huge leaf count, last byte dropped / extra byte, zeros, 204, 302 without Location, 404, 500, reset) at every request position, and for log-signed checkpoints with size in {0,1,2^62-1,2^62,2^62+1,2^63-1,2^63,2^64-1} x root hash length {0,5,31,32,33} x witness {empty, size 1}: must end with a result or an error (no panic, no process exit, no stall: 20 s without progress, confirmed 3 times). distinct_nontrivial = distinct feeder cases")
 	run.Assumption("a retry loop that keeps retrying until its context ends is by design: cycles run with a context that ends at the first back-off wait")
 	run.Assumption("not all byte strings up to 16 KiB: the stated neighbourhoods and menus, completely (coverage-guided fuzzing would be a different technique family)")
 	return run.Finish()
